@@ -195,11 +195,37 @@ def check_units(case, cl):
     g.set_resolution(res)
     units = "mm"
     phys_mm = res
+    from vf.props.c02 import _flaky_writer
+    flaky = _flaky_writer()
+    g.add_writer(flaky)
     for u in case["seq"]:
         if u.startswith("res:"):
             v = float(u[4:])
             g.set_resolution(v)
             phys_mm = v * (25.4 if units == "in" else 1.0)
+            continue
+        if u.startswith("fail:"):
+            # the switch is attempted while the output device fails on that very
+            # statement: whatever the builder then believes its units to be, the
+            # resolution must still describe the same physical length (units and
+            # resolution change together or not at all), also after a retry
+            u = u[5:]
+            flaky.armed = True
+            try:
+                g.set_length_units(u)
+            except Exception:
+                pass
+            flaky.armed = False
+            cl.add("units_switch_with_failing_writer")
+            now = g.state.length_units.value
+            units = "in" if now.startswith("in") else "mm"
+            exp = phys_mm / 25.4 if units == "in" else phys_mm
+            got = g.state.resolution
+            if abs(got - exp) > 1e-9 * exp:
+                raise Violation(f"after a units switch to {u!r} whose statement could not be "
+                                f"written (sequence {case['seq']!r} from {res} mm): the builder "
+                                f"reports {now} and resolution {got!r}, physical {phys_mm} mm "
+                                f"would be {exp!r}")
             continue
         g.set_length_units(u)
         units = "in" if u in ("in", "inches") else "mm"
@@ -266,8 +292,9 @@ def run_shard(ctx):
         nv = check_units(case, cl)
         ctx.case(case, nontrivial="NT" in cl, classes=sorted(cl), steps=nv)
 
-    seq = st.lists(st.one_of(st.sampled_from(["in", "mm", "inches", "millimeters"]),
-                             st.floats(min_value=0.001, max_value=10).map(lambda v: "res:%r" % v)),
+    seq = st.lists(hist.weighted((6, st.sampled_from(["in", "mm", "inches", "millimeters"])),
+                                 (1, st.sampled_from(["fail:in", "fail:mm", "fail:inches"])),
+                                 (3, st.floats(min_value=0.001, max_value=10).map(lambda v: "res:%r" % v))),
                    min_size=1, max_size=6)
     run_hypothesis(ctx, st.fixed_dictionaries({
         "kind": st.just("units"), "res": st.floats(min_value=0.001, max_value=25.0),
